@@ -8,7 +8,7 @@ EXPLANATION = ('Value-flow normal forms and loop summaries of the ESS helper of 
                'P_k <= 0, running-minimum clamp, tau = -1 + 2 sum P_k, ESS = m h / tau; path switch at 100 rows; brute force: centred, (1/h) sum_{t<h-lag} x_t x_{t+lag}; '
                'FFT: centred, zero-padded to a power of two >= 2h-1 (loop summary of the doubling), |X|^2, inverse, real part, first h lags, scale 1/(n_padded h); '
                'lag-0 consistency of the normaliser with W. Equality of the two paths up to rounding (the convolution theorem) and the AR(1)/i.i.d. asymptotics are not decided.')
-FLOORS = {'obligations': 20}   # counted on the reference tree; fewer instantiated obligations is reported, never passed silently
+FLOORS = {'obligations': 22}   # counted on the reference tree; fewer instantiated obligations is reported, never passed silently
 TECHNIQUE = 'value-flow normal form + loop summaries (exit conditions, carried minima, doubling loop) vs specification table'
 R3 = lambda s: {s: 3}
 
@@ -36,6 +36,12 @@ def body_of(ctx, key):
 
 
 def run(ctx):
+    # the ESS a user sees comes through RunStats::from(view) -> from_f32_view -> split_rhat_mean_ess: the entry point must hand the
+    # LOGICAL array on (element-wise conversion in logical order), whatever the memory layout of the view (shared with C11)
+    from .C11 import runstats
+    got = ctx.borrow(runstats, lambda oid: oid.startswith('C11.from'))
+    if not got:
+        ctx.unknown('C12.entry', 'RunStats::from', 'borrowed', why='entry-point obligations (C11.from*) could not be instantiated')
     b, ev, bodies = roles(ctx)
     A = 'ESS (helper of split_rhat_mean_ess)'
     if b is None or not bodies or bodies.get('ess') is None:
